@@ -146,7 +146,7 @@ fn value_lit(rng: &mut Rng, field: usize) -> String {
     }
 }
 
-fn gen_tl(rng: &mut Rng, allow_default_body: bool) -> Tl {
+fn gen_tl(rng: &mut Rng, allow_default_body: bool, need_keyframe: bool) -> Tl {
     let easing = if rng.chance(0.6) {
         Some(rng.usize_below(EASINGS.len()))
     } else {
@@ -155,7 +155,7 @@ fn gen_tl(rng: &mut Rng, allow_default_body: bool) -> Tl {
     let back = easing.map(|e| e >= 26).unwrap_or(false);
     // (an arm may consist of timing arguments only: a timeline without keyframes still counts
     // as animated for pause/resume and has a duration)
-    let n_kfs = if rng.chance(0.1) { 0 } else { rng.range(1, 4) as usize };
+    let n_kfs = if !need_keyframe && rng.chance(0.1) { 0 } else { rng.range(1, 4) as usize };
     let mut kfs: Vec<Kf> = Vec::new();
     let mut used: Vec<u32> = Vec::new(); // positions in 1/1000 to keep them distinct
     for _ in 0..n_kfs {
@@ -386,7 +386,10 @@ fn gen_animator(rng: &mut Rng) -> Animator {
         let merged = rng.chance(0.3);
         let n_tls = if merged { rng.range(2, 3) as usize } else { 1 };
         let bracketed = merged || rng.chance(0.1);
-        let tls: Vec<Tl> = (0..n_tls).map(|_| gen_tl(rng, true)).collect();
+        // (the first arm keeps at least one keyframe so that every block stays type-inferable
+        // even if a defect drops keyframe-less arms)
+        let first_arm = arms.is_empty();
+        let tls: Vec<Tl> = (0..n_tls).map(|i| gen_tl(rng, true, first_arm && i == 0)).collect();
         if merged {
             features.push("merged-arm");
         } else if bracketed {
